@@ -309,6 +309,7 @@ class World(object):
         self.ss = StorageServer(base, NODEID, clock=self.clock)
         self.sharedir = os.path.join(base, "shares")
         self.bws = {}
+        self.last_finished = None
         self.inprogress = {}        # (si, sh) -> {"size": n, "writes": [(off, data)]}
 
     # -- helpers -----------------------------------------------------------
@@ -361,6 +362,11 @@ class World(object):
         if k == "write":
             size = self.inprogress[(op["si"], op["sh"])]["size"]
             return "(ImmWrite %s %s %s %s %s)" % (T.N(op["si"]), T.N(op["sh"]), T.N(size), T.N(op["off"]), Bx(bytes.fromhex(op["data"])))
+        if k == "hwrite":
+            u = self.inprogress[(op["si"], op["sh"])]
+            prev = T.lst(["(%s, %s)" % (T.N(o), T.N(len(d))) for (o, d) in reversed(u["writes"])])
+            return "(ImmWriteHttp %s %s %s %s %s %s)" % (T.N(op["si"]), T.N(op["sh"]), T.N(u["size"]), prev, T.N(op["off"]),
+                                                          Bx(bytes.fromhex(op["data"])))
         if k == "close":
             return "(ImmClose %s %s)" % (T.N(op["si"]), T.N(op["sh"]))
         if k == "abort":
@@ -403,12 +409,20 @@ class World(object):
                 self.bws[(op["si"], sh)] = bws[sh]
                 self.inprogress[(op["si"], sh)] = {"size": op["size"], "writes": []}
             return
-        if k == "write":
+        if k in ("write", "hwrite"):
             key = (op["si"], op["sh"])
             data = bytes.fromhex(op["data"])
-            if op["off"] + len(data) <= self.inprogress[key]["size"]:
-                self.inprogress[key]["writes"].append((op["off"], data))
-            self.bws[key].write(op["off"], data)
+            u = self.inprogress[key]
+            self.last_finished = None
+            finished = self.bws[key].write(op["off"], data)        # raises when refused
+            u["writes"].append((op["off"], data))
+            # what BucketWriter.write() answered / what the union of the written ranges says
+            self.last_finished = (bool(finished), covered_py(u["size"], u["writes"]), key, u["size"], list(u["writes"]))
+            if k == "hwrite" and finished:
+                # HTTPServer.write_share_data: "if finished: bucket.close()"
+                self.bws[key].close()
+                del self.bws[key]
+                del self.inprogress[key]
             return
         if k == "close":
             key = (op["si"], op["sh"])
@@ -462,10 +476,19 @@ class World(object):
         self.bws = {}
 
 
+def covered_py(size, writes):
+    """Union of the accepted (offset, data) writes = every byte of the share."""
+    have = bytearray(size)
+    for off, d in writes:
+        for i in range(off, min(size, off + len(d))):
+            have[i] = 1
+    return all(have)
+
+
 def applicable(w, op):
     """write/close/abort need the BucketWriter an earlier allocate returned
     (a generated workload may name one the server did not grant)."""
-    if op["op"] in ("write", "close", "abort"):
+    if op["op"] in ("write", "hwrite", "close", "abort"):
         return (op["si"], op["sh"]) in w.bws
     return True
 
@@ -661,7 +684,25 @@ def directed_workloads():
         {"op": "writev", "si": 2, "secret": 0, "tw": [[1, [[], [], 0]], [2, [[], [[0, hx(b"n" * 4)]], None]]], "renew": False},
         {"op": "writev", "si": 2, "secret": 0, "tw": [[0, [[], [], 0]], [2, [[], [], 0]]]},
     ]
-    return [w_imm, w_mut]
+    def ch(sh, i, n=3, si=1):
+        return {"op": "hwrite", "si": si, "sh": sh, "off": i * n, "data": hx(bytes([65 + i]) * n)}
+    # uploads the way the HTTP protocol drives them: no close, chunks re-sent with
+    # identical bytes (a lost response), out of order, overlapping; the byte total
+    # of the accepted writes reaches the share size before the union does
+    w_http = [
+        {"op": "allocate", "si": 1, "shnums": [0, 1], "size": 9, "secret": 0},
+        ch(0, 0), ch(0, 0), ch(0, 1),
+        ch(1, 2), ch(1, 0), ch(1, 2),
+        {"op": "hwrite", "si": 1, "sh": 1, "off": 2, "data": hx(b"A" + b"BB")},
+        ch(0, 2),
+        {"op": "add_lease", "si": 1, "secret": 1},
+        ch(1, 1),
+        {"op": "allocate", "si": 1, "shnums": [2, 0], "size": 4, "secret": 2},
+        {"op": "hwrite", "si": 1, "sh": 2, "off": 0, "data": hx(b"zz")},
+        {"op": "hwrite", "si": 1, "sh": 2, "off": 0, "data": hx(b"zz")},
+        {"op": "hwrite", "si": 1, "sh": 2, "off": 2, "data": hx(b"yy")},
+    ]
+    return [w_imm, w_mut, w_http]
 
 
 def random_workload(r):
@@ -670,6 +711,7 @@ def random_workload(r):
     four leases on a mutable share followed by container growth."""
     ops = []
     inprog = {}        # (si, sh) -> size
+    http = {}          # (si, sh) -> (chunk length, set of chunk indexes sent) for HTTP-style uploads
     final = set()      # immutable shares known to exist
     mshares = {}       # si -> {sh: approx container data size}
     mleases = {}       # si -> number of distinct lease secrets used
@@ -685,9 +727,28 @@ def random_workload(r):
                 shn = r.sample([0, 1, 2, 3], r.choice([1, 1, 2, 3]))
                 size = r.choice([0, 1, 7, 12, 30, 72, 73, 100])
                 ops.append({"op": "allocate", "si": si, "shnums": shn, "size": size, "secret": r.choice([0, 1, 2, 3])})
+                use_http = size >= 2 and r.random() < 0.5
                 for sh in shn:
                     if (si, sh) not in inprog and (si, sh) not in final:
                         inprog[(si, sh)] = size
+                        if use_http:
+                            http[(si, sh)] = (-(-size // r.choice([2, 3, 4])), set())
+            elif c < 0.72 and mine and [k for k in mine if k in http]:
+                # HTTP-style: chunks on a grid, re-sent and out of order; closed by the server
+                key = r.choice([k for k in mine if k in http])
+                size = inprog[key]
+                clen, sent = http[key]
+                nch = -(-size // clen)
+                i = r.choice(sorted(sent)) if sent and r.random() < 0.45 else r.randrange(nch)
+                off = i * clen
+                ln = min(clen, size - off)
+                ops.append({"op": "hwrite", "si": key[0], "sh": key[1], "off": off,
+                            "data": hx(bytes([97 + (off + q) % 26 for q in range(ln)]))})
+                sent.add(i)
+                if len(sent) == nch:
+                    del inprog[key]
+                    del http[key]
+                    final.add(key)
             elif c < 0.5 and mine:
                 key = r.choice(mine)
                 size = inprog[key]
@@ -699,11 +760,13 @@ def random_workload(r):
                 key = r.choice(mine)
                 ops.append({"op": "close", "si": key[0], "sh": key[1]})
                 del inprog[key]
+                http.pop(key, None)
                 final.add(key)
             elif c < 0.73 and mine:
                 key = r.choice(mine)
                 ops.append({"op": "abort", "si": key[0], "sh": key[1]})
                 del inprog[key]
+                http.pop(key, None)
             elif c < 0.9:
                 if r.random() < 0.4:
                     ops.append({"op": "advance", "dt": r.choice([1, 50, 100])})
@@ -773,7 +836,7 @@ def opkind(op):
             else:
                 kinds.add("write")
         return "mutable-" + "+".join(sorted(kinds))
-    return {"allocate": "immutable-allocate", "write": "immutable-write", "close": "immutable-close",
+    return {"allocate": "immutable-allocate", "write": "immutable-write", "hwrite": "immutable-write-http", "close": "immutable-close",
             "abort": "immutable-abort", "add_lease": "lease-add-or-renew", "renew": "lease-renew"}[k]
 
 
@@ -839,9 +902,19 @@ class Runner(object):
             term = w.sop_term(op)
             inprog = {k: {"size": v["size"], "writes": list(v["writes"])} for k, v in w.inprogress.items()}
             w.inj.arm(None)
+            w.last_finished = None
             exc = w.try_execute(op)
             total = w.inj.count
             vis = w.visible_log()
+            if op["op"] in ("write", "hwrite") and w.last_finished is not None:
+                said, is_cov, key, size, writes = w.last_finished
+                ctx.count("write-answers:finished" if said else "write-answers:not-finished")
+                if said != is_cov:
+                    ctx.oracle_fail("write-reports-finished-differently-from-bytes-written",
+                                    "BucketWriter.write() on share %d/%d (%d bytes) answered finished=%s but the distinct ranges written so far %s the share"
+                                    % (key[0], key[1], size, said, "cover" if is_cov else "do NOT cover"),
+                                    case={"workload": ops, "j": j, "n": total, "op": op},
+                                    expected={"finished": is_cov}, observed={"finished": said, "writes": [[o, d.hex()] for o, d in writes]})
             try:
                 log_terms = [op_term(w, ev) for ev in vis]
             except ValueError as e:
@@ -899,7 +972,8 @@ class Runner(object):
                 seen_k[k] = post
                 g = self.state_groups.setdefault((tuple(hist), term), {})
                 g.setdefault(k, (post, case))
-                if restart_crashes and any(ev[0] == "unlink" for ev in rlog):
+                if (restart_crashes and any(ev[0] == "unlink" for ev in rlog)
+                        and (ctx.tier == "thorough" or ctx.stats["crash-points:restart"] < 120)):
                     # the restart had something to clean: crash it too
                     self.restart_crashes(ops, j, n, post, rlog)
                 shutil.rmtree(w.base, ignore_errors=True)
@@ -961,7 +1035,7 @@ class Runner(object):
         si = op.get("si")
         if k in ("allocate", "add_lease", "renew"):
             written = set((si, sh) for sh in range(NSH))
-        elif k in ("write", "close", "abort"):
+        elif k in ("write", "hwrite", "close", "abort"):
             written = {(si, op["sh"])}
         else:
             written = set((si, sh) for sh, _ in op["tw"])
@@ -1025,6 +1099,30 @@ class Runner(object):
             closing = (k == "close" and key == (si, op["sh"]))
             writes = list(u["writes"])
             v = post[key]
+            if k == "hwrite" and key == (si, op["sh"]):
+                # HTTP protocol: no explicit close.  A share visible to readers must be
+                # byte-complete; an upload that never wrote every byte leaves nothing visible.
+                d = bytes.fromhex(op["data"])
+                if op["off"] + len(d) <= u["size"]:
+                    writes.append((op["off"], d))
+                full = covered_py(u["size"], writes)
+                want = bytearray(u["size"])
+                for off, dd in writes:
+                    want[off:off + len(dd)] = dd
+                if v != ABSENT and not full:
+                    holes = [i for i in range(u["size"]) if not any(o <= i < o + len(dd) for o, dd in writes)]
+                    ctx.oracle_fail("visible-share-not-byte-complete",
+                                    "share %d/%d is served after the restart although the upload never wrote bytes %d..%d of %d (writes so far: %s)"
+                                    % (key[0], key[1], holes[0], holes[-1], u["size"], [(o, len(dd)) for o, dd in writes]),
+                                    case=case, expected="absent", observed=show(v))
+                elif v != ABSENT and (v[0] != "imm" or v[1] != bytes(want) or len(v[2]) != 1):
+                    ctx.oracle_fail("immutable-share-neither-absent-nor-complete",
+                                    "share %d/%d is served after the restart but does not hold what the uploader wrote" % key,
+                                    case=case, expected={"data": bytes(want).hex(), "leases": 1}, observed=show(v))
+                elif v == ABSENT and full and not crashed and R.get("exc") is None:
+                    ctx.oracle_fail("closed-share-missing",
+                                    "the write that completed share %d/%d returned but the share is absent after a restart" % key, case=case)
+                continue
             if v == ABSENT:
                 continue
             if not closing:
@@ -1137,6 +1235,126 @@ def witness(runner):
 
 
 # ---------------------------------------------------------------------------
+# the same upload histories through the real HTTP storage server and client
+# ---------------------------------------------------------------------------
+HTTP_HISTORIES = [
+    # (share size, chunk length, chunk indexes sent before the server is killed)
+    (9, 3, [0, 0, 1]), (9, 3, [2, 2, 0]), (9, 3, [0, 1, 2]), (9, 3, [1, 1, 1]), (9, 3, [0, 0, 1, 2]),
+    (12, 4, [0, 0, 1, 1]), (8, 2, [3, 0, 3, 0]), (4, 2, [0, 0]), (4, 2, [1, 1, 0]), (10, 4, [2, 0, 0, 2]),
+    (6, 6, [0]), (6, 3, [1]),
+]
+
+
+def http_history(ctx, hist, tag):
+    """One immutable share uploaded over HTTP (StorageClientImmutables ->
+    HTTPServer -> BucketWriter) as the given chunk sequence, re-sent chunks
+    carrying identical bytes; then the server is dropped and restarted.  After
+    every request and after the restart: a share handed out by get_buckets is
+    byte-complete, an upload that has not written every byte shows nothing."""
+    from props.c30 import HttpStore
+    from allmydata.storage.http_client import StorageClientImmutables, ClientException
+    from allmydata.storage.server import StorageServer
+    from twisted.internet.task import Clock
+    size, clen, seq = hist
+    data = bytes([97 + q % 26 for q in range(size)])
+    si, sh = SI(1), 3
+    base = os.path.join(env.subdir("c29"), "http-%s" % tag)
+    shutil.rmtree(base, ignore_errors=True)
+    _cur[0] = Injector()
+    store = HttpStore(base, b"swissnum", nodeid=NODEID)
+    imm = StorageClientImmutables(store.client)
+    rs, cs = secrets(0)
+    case = {"http_history": {"size": size, "chunk": clen, "sequence": list(seq)}}
+    created = store.run(imm.create(si, {sh}, size, b"U" * 32, rs, cs))
+    if created.allocated != {sh}:
+        ctx.note("HTTP history %r: share not allocated" % (hist,))
+        return
+    sent = []
+
+    def judge(ss, when, closed_ok):
+        full = covered_py(size, sent)
+        try:
+            buckets = ss.get_buckets(si)
+        except Exception as e:
+            ctx.oracle_fail("visible-share-unreadable", "get_buckets raises %s %s" % (type(e).__name__, when), case=case)
+            return
+        if sh in buckets:
+            got = buckets[sh].read(0, size + 100)
+            if not full:
+                holes = [i for i in range(size) if not any(o <= i < o + len(d) for o, d in sent)]
+                ctx.oracle_fail("visible-share-not-byte-complete",
+                                "over HTTP, %s: share 1/%d is served although the upload never wrote bytes %d..%d of %d (chunks sent: %s)"
+                                % (when, sh, holes[0], holes[-1], size, [(o, len(d)) for o, d in sent]),
+                                case=dict(case, when=when), expected="absent", observed={"data": got.hex()})
+            elif got != data:
+                ctx.oracle_fail("immutable-share-neither-absent-nor-complete",
+                                "over HTTP, %s: share 1/%d is served but does not hold what the uploader sent" % (when, sh),
+                                case=dict(case, when=when), expected=data.hex(), observed=got.hex())
+        elif full and closed_ok:
+            ctx.oracle_fail("closed-share-missing", "over HTTP, %s: every byte was written and acknowledged but the share is not served" % when,
+                            case=dict(case, when=when))
+
+    finished_seen = False
+    for step, i in enumerate(seq):
+        off = i * clen
+        chunk = data[off:off + clen]
+        try:
+            up = store.run(imm.write_share_chunk(si, sh, b"U" * 32, off, chunk))
+        except ClientException:
+            ctx.count("http:chunk-refused-after-completion" if finished_seen else "http:chunk-refused")
+            continue
+        sent.append((off, chunk))
+        full = covered_py(size, sent)
+        ctx.count("http:chunks-acknowledged")
+        if bool(up.finished) != full:
+            ctx.oracle_fail("write-reports-finished-differently-from-bytes-written",
+                            "over HTTP the server answered finished=%s to chunk #%d of %r but the distinct ranges written so far %s the share"
+                            % (up.finished, step, list(seq), "cover" if full else "do NOT cover"),
+                            case=dict(case, step=step), expected={"finished": full}, observed={"finished": bool(up.finished)})
+        finished_seen = finished_seen or bool(up.finished)
+        judge(store.ss, "after request %d" % step, True)
+    # the server process is killed; restart on the same directory
+    clock = store.clock
+    del store, imm
+    _cur[0] = Injector()
+    ss2 = StorageServer(base, NODEID, clock=Clock())
+    judge(ss2, "after kill + restart", True)
+    inc = os.path.join(base, "shares", "incoming")
+    left = [os.path.join(r_, f) for r_, _, fs in os.walk(inc) for f in fs]
+    if left:
+        ctx.oracle_fail("incoming-not-discarded-at-restart", "over HTTP: after the restart shares/incoming still holds files", case=case,
+                        observed=[os.path.relpath(x, inc) for x in left])
+    ctx.case(("http", hist, covered_py(size, sent)), kind="http-upload-history")
+    ctx.count("http:histories-complete" if covered_py(size, sent) else "http:histories-incomplete-at-kill")
+    shutil.rmtree(base, ignore_errors=True)
+
+
+def http_histories(ctx):
+    try:
+        import props.c30  # noqa: F401  (HttpStore: StorageServer + HTTPServer + StubTreq + StorageClient)
+        from allmydata.storage import http_client  # noqa: F401
+    except Exception as e:
+        ctx.note("HTTP storage stack not usable here (%s: %s): HTTP upload histories skipped, BucketWriter-level histories cover the same rule" % (type(e).__name__, e))
+        return
+    hists = list(HTTP_HISTORIES)
+    for i in range(ctx.n(8, 120)):
+        r = ctx.rng("http", i)
+        size = r.choice([4, 6, 9, 10, 12])
+        clen = r.choice([2, 3, 4, 5])
+        nch = -(-size // clen)
+        seq = []
+        for _ in range(r.choice([2, 3, 4, 6])):
+            seq.append(r.choice(seq) if seq and r.random() < 0.5 else r.randrange(nch))
+        hists.append((size, clen, seq))
+    for n, h in enumerate(hists):
+        try:
+            http_history(ctx, h, str(n))
+        except Exception as e:
+            ctx.mismatch("harness-error", "HTTP history %r raised %s: %s" % (h, type(e).__name__, e), case={"http_history": list(h)},
+                         correspondence="low-level-call-list-vs-model")
+
+
+# ---------------------------------------------------------------------------
 def run(ctx):
     ctx.correspondence("low-level-call-list-vs-model")
     ctx.correspondence("post-crash-state-vs-model-prefix")
@@ -1168,9 +1386,10 @@ def _run(ctx, runner):
     for name, wl in corpus_workloads():
         runner.run_workload("corpus:" + name, wl)
     witness(runner)
+    http_histories(ctx)
     for i, wl in enumerate(directed_workloads()):
         runner.run_workload("directed-%d" % i, wl, restart_crashes=(i == 0 or ctx.tier == "thorough"))
-    n = ctx.n(8, 150)
+    n = ctx.n(7, 150)
     base = 1000 if ctx.search else 0
     for i in range(n):
         r = ctx.rng("workload", base + i)
@@ -1260,6 +1479,15 @@ def compare_with_model(ctx, runner):
 def replay(ctx, rec):
     """Re-run one recorded crash point and re-evaluate the direct oracle."""
     case = rec.get("case") or {}
+    if case.get("http_history"):
+        h = case["http_history"]
+        install()
+        try:
+            http_history(ctx, (h["size"], h["chunk"], h["sequence"]), "replay")
+        finally:
+            uninstall()
+            shutil.rmtree(env.subdir("c29"), ignore_errors=True)
+        return {"http_history": h, "failures": [f["what"] for f in ctx.failures]}
     ops = case.get("workload")
     if not ops or "j" not in case:
         return {"note": "record holds no crash-point case"}
